@@ -102,26 +102,32 @@ def _splice(rec, bi, callee, glue, dest, target, unwind, stack, ret_wrap=None):
     return loff, boff
 
 
-def _instantiate(fx, blocks, g, t):
+def _instantiate(fx, blocks, g, t, sub=None):
     """the type arguments of the call site, substituted into the copied callee: a trait method called on one of the callee's
     type parameters (`change.apply(..)` with `change: impl TableChange<T>`) is resolved to the implementation for the
     argument type the caller passes (`<Subscribe<T> as TableChange<T>>::apply`), so that it can be inlined in turn"""
-    gen = g.get("generics") or (fx.fn(g.get("root") or "") or {}).get("generics") or []
-    ga = t.get("gargs") or []
-    if not gen or len(ga) < len(gen):
-        return
-    # an inherent / trait method's generics are listed after those of its impl: align from the end
-    sub = {gen[i]: ga[len(ga) - len(gen) + i] for i in range(len(gen))}
+    if sub is None:
+        gen = g.get("generics") or (fx.fn(g.get("root") or "") or {}).get("generics") or []
+        ga = t.get("gargs") or []
+        if not gen or len(ga) < len(gen):
+            return
+        # an inherent / trait method's generics are listed after those of its impl: align from the end
+        sub = {gen[i]: ga[len(ga) - len(gen) + i] for i in range(len(gen))}
     sub = {k: v for k, v in sub.items() if k != v}
     if not sub:
         return
+
+    import re as _re
 
     def subst(s):
         if s in sub:
             return sub[s]
         for k, v in sub.items():
-            if len(k) > 2 and k in s:
-                s = s.replace(k, v)
+            if len(k) > 2 and not _re.match(r"^[A-Za-z0-9_]+$", k):
+                if k in s:
+                    s = s.replace(k, v)
+            else:
+                s = _re.sub(r"(?<![A-Za-z0-9_:])%s(?![A-Za-z0-9_:])" % _re.escape(k), lambda _m, v_=v: v_, s)
         return s
     for blk in blocks:
         ct = blk["t"]
@@ -143,15 +149,19 @@ def _instantiate(fx, blocks, g, t):
                 ct["resolved_local"] = True
 
 
-def inlined(fx, f, pred=None, depth=3, stage="pre"):
-    """function record with the accepted crate-local callees inlined (cached per facts, function and predicate name)"""
+def inlined(fx, f, pred=None, depth=3, stage="pre", sub=None):
+    """function record with the accepted crate-local callees inlined (cached per facts, function and predicate name).
+    `sub` instantiates type parameters of f itself first ({"T": "mpsc::Sender<..>"}: one instance of a closure written in a
+    generic function), so that trait methods called on them resolve to the implementation for that type"""
     cache = fx.__dict__.setdefault("_inline_cache", {})
-    key = (f["def"], getattr(pred, "__name__", None), depth, stage)
+    key = (f["def"], getattr(pred, "__name__", None), depth, stage, tuple(sorted((sub or {}).items())))
     if key in cache:
         return cache[key]
     rec = {"blocks": copy.deepcopy(f[stage]["blocks"]), "locals": list(f[stage]["locals"]), "arg_count": f[stage]["arg_count"]}
     for blk in rec["blocks"]:
         blk["_st"] = (f["def"],)
+    if sub:
+        _instantiate(fx, rec["blocks"], f, None, sub=dict(sub))
     out = dict(f)
     out[stage] = rec
     out["inlined_from"] = []
@@ -261,10 +271,10 @@ def inlined(fx, f, pred=None, depth=3, stage="pre"):
     return out
 
 
-def body(ctx, fx, f, pred=None, depth=3):
+def body(ctx, fx, f, pred=None, depth=3, sub=None):
     """Body of the inlined record (cached in the run context next to the plain bodies)"""
-    rec = inlined(fx, f, pred, depth)
-    key = (fx.cfg, f["def"], "inl", getattr(pred, "__name__", None), depth)
+    rec = inlined(fx, f, pred, depth, sub=sub)
+    key = (fx.cfg, f["def"], "inl", getattr(pred, "__name__", None), depth, tuple(sorted((sub or {}).items())))
     if key not in ctx._bodies:
         ctx._bodies[key] = Body(rec, "pre")
     return ctx._bodies[key]
